@@ -35,7 +35,7 @@ PROPS = {
         design_ref="§5 C16",
         layers={
             "quick": [L("native", "vh-local", shards=4),
-                      L("miri", "vh-local", "miri", tier="miri", shards=4, timeout=600)],
+                      L("miri", "vh-local", "miri", tier="miri", shards=8, timeout=600)],
             "thorough": [L("native", "vh-local", tier="thorough", shards=16),
                          L("miri", "vh-local", "miri", tier="miri", shards=16, timeout=1500, extra={"depth": 5, "random": 4000})],
         },
@@ -43,5 +43,86 @@ PROPS = {
                      "obs_none_after_close", "obs_none_after_senders_gone", "obs_send_rejected", "obs_drained_after_closure",
                      "layer_miri_obs_wakes_by_close"],
         assumptions=COMMON_ASSUMPTIONS + ["single-threaded (!Send) API: operation sequences are the complete schedule space"],
+    ),
+    "C17": dict(
+        level="exploration",
+        technique="runtime monitoring: real Counter/LocalWaker driven by exhaustive + random op sequences against a reference counter/waker model with identified counting wakers; Miri as UB monitor",
+        level_text="Every operation sequence up to the bound runs on the real actix_utils::counter::Counter (capacities 0..3) and local_waker::LocalWaker; available()/total()/register() results and the wake counters of identified wakers are compared with a reference model after each step. Single-threaded API, so sequences are the whole schedule space.",
+        level_note="Trusted: reference model in harness/vh-local/src/c17.rs, counting wakers, Miri. Bounds: length <= 7 quick / <= 9 thorough (Counter), 6 / 8 (LocalWaker), random to 300.",
+        design_ref="§5 C17",
+        layers={
+            "quick": [L("native", "vh-local", shards=4),
+                      L("miri", "vh-local", "miri", tier="miri", shards=8, timeout=600)],
+            "thorough": [L("native", "vh-local", tier="thorough", shards=16),
+                         L("miri", "vh-local", "miri", tier="miri", shards=16, timeout=1500, extra={"depth": 5, "wdepth": 5, "random": 3000})],
+        },
+        obligations=["obs_unavailable_answers", "obs_available_answers", "obs_release_wakes_checked", "obs_over_capacity_states",
+                     "obs_lw_register_true", "obs_lw_register_false", "obs_lw_wakes_delivered", "obs_lw_takes_some", "layer_miri_obs_release_wakes_checked"],
+        assumptions=COMMON_ASSUMPTIONS + ["single-threaded (!Send) API: operation sequences are the complete schedule space"],
+    ),
+    "C20": dict(
+        level="exploration",
+        technique="runtime monitoring: str::from_utf8 invariant monitor on every produced ByteString + differential/panic-parity oracle against str over an exhaustive UTF-8-fragment alphabet; Miri on the from_utf8_unchecked path",
+        level_text="Every byte string up to the bound over an alphabet of ASCII, 2/3/4-byte sequence fragments and invalid bytes goes through every constructor; every value produced (incl. all split_at halves and slice_ref results) is validated with str::from_utf8 and compared with the equivalent str operation, panics included. Miri runs a reduced sweep to flag misuse of the unchecked conversion.",
+        level_note="Trusted: std's str as the reference, catch_unwind panic parity, Miri. Bounds: length <= 4 quick / <= 5 thorough exhaustive (12-symbol alphabet), random multi-width strings to 12 chars.",
+        design_ref="§5 C20",
+        layers={
+            "quick": [L("native", "vh-local", shards=8),
+                      L("miri", "vh-local", "miri", tier="miri", shards=8, timeout=600)],
+            "thorough": [L("native", "vh-local", tier="thorough", shards=16),
+                         L("miri", "vh-local", "miri", tier="miri", shards=16, timeout=1500, extra={"maxlen": 3, "random": 600})],
+        },
+        obligations=["obs_valid_inputs", "obs_invalid_inputs", "obs_multibyte_valid_inputs", "obs_constructor_rejects", "obs_splits_ok",
+                     "obs_splits_panic_parity", "obs_slice_refs", "obs_foreign_slice_panics", "obs_ord_pairs", "layer_miri_obs_splits_panic_parity"],
+        assumptions=COMMON_ASSUMPTIONS + ["only the safe API is in scope (from_bytes_unchecked is unsafe by contract)"],
+    ),
+    "C15": dict(
+        level="exploration",
+        technique="runtime monitoring: real LinesCodec decode/encode vs an independent slice-based reference splitter over an exhaustive small alphabet, two-piece feeding, round-trip law; Miri",
+        level_text="All byte strings up to the bound over {a, CR, LF, C3, A9, FF} are decoded by the real codec (whole and cut in two at every position) and compared with an independent reference splitter; encode is checked to append exactly item+LF and the round-trip law is checked on all admissible short sequences.",
+        level_note="Trusted: the reference splitter in harness/vh-local/src/c15.rs. One documented ambiguity (final lone CR) accepted both ways. Bounds: length <= 6 quick / <= 7 thorough.",
+        design_ref="§5 C15",
+        layers={
+            "quick": [L("native", "vh-local", shards=4),
+                      L("miri", "vh-local", "miri", tier="miri", shards=8, timeout=600)],
+            "thorough": [L("native", "vh-local", tier="thorough", shards=16),
+                         L("miri", "vh-local", "miri", tier="miri", shards=16, timeout=1500, extra={"maxlen": 4, "random": 400})],
+        },
+        obligations=["obs_lines_compared", "obs_invalid_utf8_lines", "obs_inputs_with_crlf", "obs_inputs_with_unterminated_tail", "obs_lone_cr_tails",
+                     "obs_two_piece_decodes", "obs_roundtrips", "obs_empty_lines"],
+        assumptions=COMMON_ASSUMPTIONS,
+    ),
+    "C13": dict(
+        level="exploration",
+        technique="runtime monitoring: real Framed::poll_next over a scripted AsyncRead (all chunkings x Pending placements x one I/O error) vs whole-buffer reference decode; fresh identified waker per poll; Miri",
+        level_text="For three codecs, every short byte stream x every composition into read chunks (plus every placement of <= 2 Pendings and of one I/O error) is fed to the real Framed through a scripted transport and the produced item sequence is compared with the reference decode of the whole stream; random long streams cross the 1 KiB / 8 KiB buffer marks.",
+        level_note="Trusted: the codecs' own decode on a single buffer as the reference (C15 checks LinesCodec independently), the scripted transport. Bounds: stream length <= 6 (all compositions) / 5 (Pendings) / 4 (I/O error) quick; 7/6/4 thorough.",
+        design_ref="§5 C13",
+        layers={
+            "quick": [L("native", "vh-local", shards=8),
+                      L("miri", "vh-local", "miri", tier="miri", shards=8, timeout=600)],
+            "thorough": [L("native", "vh-local", tier="thorough", shards=16),
+                         L("miri", "vh-local", "miri", tier="miri", shards=16, timeout=1500, extra={"la": 4, "random": 30})],
+        },
+        obligations=["obs_frames_compared", "obs_pending_polls", "obs_io_errors_surfaced", "obs_decode_errors_surfaced",
+                     "obs_end_of_stream_error_cases", "obs_none_stability_polls", "obs_frames_over_8k", "layer_miri_obs_pending_polls"],
+        assumptions=COMMON_ASSUMPTIONS,
+    ),
+    "C14": dict(
+        level="exploration",
+        technique="runtime monitoring: real Framed Sink over a scripted AsyncWrite (partial writes, Pending, zero, error); byte-stream conservation + 'success => nothing buffered' shadow model checked after every call; Miri",
+        level_text="Every contract-respecting interleaving of poll_ready/start_send/poll_flush/poll_close up to the bound is run against every short transport script; after each call the bytes the transport received must be a prefix of the accepted items' encodings, success of flush/close must mean nothing is buffered and the transport was flushed/shut down, poll_ready must track the 8 KiB mark, and zero writes / errors must surface.",
+        level_note="Trusted: the codec's encode on a separate buffer as the expected encoding, the scripted transport. Bounds: <= 6 ops x write scripts <= 3 quick; 7 x 4 thorough; random to 200 ops.",
+        design_ref="§5 C14",
+        layers={
+            "quick": [L("native", "vh-local", shards=16),
+                      L("miri", "vh-local", "miri", tier="miri", shards=8, timeout=600)],
+            "thorough": [L("native", "vh-local", tier="thorough", shards=16, timeout=2400),
+                         L("miri", "vh-local", "miri", tier="miri", shards=16, timeout=1500, extra={"oplen": 4, "wlen": 2, "random": 200})],
+        },
+        obligations=["obs_items_accepted", "obs_flush_ok", "obs_close_ok", "obs_close_ok_with_pending_data", "obs_pending_results",
+                     "obs_ready_after_backpressure", "obs_ready_below_mark", "obs_write_zero_errors", "obs_transport_errors",
+                     "layer_miri_obs_close_ok_with_pending_data"],
+        assumptions=COMMON_ASSUMPTIONS,
     ),
 }
